@@ -55,7 +55,7 @@ def _enter(entry, spec, root, opts, on_init, captured):
     mmod.start_process = lambda cmd, *a, **kw: launched.append(cmd)
     try:
         if entry == "direct":
-            _y, study = SS.load_study(spec, root, **opts)
+            _y, study = SS.load_study(spec, root, **{k_: v_ for k_, v_ in opts.items() if not k_.startswith("_")})
             c = Conductor(study)
             c.initialize({"type": "scripted"}, 0)
             try:
@@ -316,7 +316,7 @@ def _run(ctx, rng, k, cancel_prob, max_polls, local_prob, entry, timeouts, force
                     par[d].append(src)
         env["parents"] = par
         env["rec"].wrap_graph(dag_)
-        if cancel_prob and r2.random() < cancel_prob / 2:
+        if opts.get("_cancel_at_init") or (cancel_prob and r2.random() < cancel_prob / 2):
             # the request is already there when the conductor starts polling
             S.WORLD.cancel_code = "OK" if r2.random() < 0.6 else "ERROR"
             st["how"] = deliver_cancel(r2, root)
